@@ -21,17 +21,18 @@ Relations (R1: exactly the statement's):
 
 Tolerances / regime (calibration, R5):
  * The engine stops iterating when the charge residual is below KNOBS -convergence_tolerance taken ABSOLUTELY (C/m2, or
-   eq with an explicit diffuse layer; default 1e-8, 1e-12 with -high_precision), so with the default tolerance a run
-   that "completes" can legitimately miss a *relative* 1e-8 whenever the charge is small (observed on the unchanged tree:
-   up to 8e-8 relative at 1e-12).  The statement's 1e-8 relative is therefore decided on inputs that ask the solver for
+   eq with an explicit diffuse layer; default 1e-8, 1e-12 with -high_precision), so a run that "completes" can
+   legitimately miss a *relative* 1e-8 whenever the charge is small (observed on the unchanged tree: up to 8e-8 relative
+   at 1e-12, 2e-5 at the default).  The statement's 1e-8 relative is therefore decided on inputs that ask the solver for
    KNOBS -convergence_tolerance 1e-13 (the tightest value at which nearly every lattice point still converges; at 1e-14
-   a quarter of the points fail on "Mass of oxygen has not converged").  Nothing is widened: the relations are judged
-   with 1e-8 relative.  A small lattice at the default tolerance is run too and its worst residuals are *reported* in the
-   evidence (`default_tolerance_worst_residuals`), not judged.
- * The statement gives no tolerance for (4).  It is a balance of many signed terms, so it is judged relative to its
-   gross size: |sum| <= 1e-8 * (sum |z n| over the surface species + sum |z n| over the diffuse-layer ions).
-   (Relative to the *net* charge it cannot be decided: near the point of zero charge the net charge is 1e-10 eq or less
-   while the engine's residual criterion is absolute.)
+   a quarter of the points fail on "Mass of oxygen has not converged"), which makes it decidable for
+   |sigma| >= 1e-5 C/m2 (|charge| >= 1e-5 eq for (4)).  Below that (a surface within a few microvolts of its point of
+   zero charge: 10..150 of the >1e5 evaluations, counted in `undecidable_n`) the statement's tolerance is not decidable
+   and is not claimed; there the check alarms only if the deviation exceeds the convergence tolerance the input asked
+   for - which implies a violation of the statement's tolerance too, so no alarm is ever raised where the statement holds.
+   A small lattice at the default tolerance (1e-8) is run too; its worst relative residuals and the number of points
+   beyond 1e-8 relative are *reported* in the evidence (`default_tolerance_*`), not judged.
+ * The statement gives no tolerance for (4); 1e-8 relative to the surface charge is used, as for (3).
  * (1) and (2) carry no tolerance in the statement either; 1e-8 relative is used and holds with a margin of 1e4.
  * A cancellation allowance of 64 ulp of the summed magnitudes is added where a value is a sum of signed terms.
  * not judged (R2): runs with rc != 0 / ERROR (zero-charge start with -donnan -only_counter_ions, kinetic integration
@@ -307,6 +308,9 @@ def judge(case, lay, o, tag, problems, diags, stats):
     mode = case["mode"]
     tk = o["tk"]
     water = o["water"]
+    # below this absolute deviation (C/m2 resp. eq) the run is converged by the solver's own definition and the
+    # statement's relative tolerance is not decidable (module docstring); 0 on the reported-only default-tolerance lattice
+    floor = 0.0 if case.get("diag") else float(case.get("ctol") or 1e-12)
     scale = 1.0
     if mode in ("phase", "kin") and not tag.startswith("i_surf"):
         # sites and area are proportional to the related reactant; in the initial surface calculation the reactant is
@@ -424,9 +428,11 @@ def judge(case, lay, o, tag, problems, diags, stats):
         def cmp(name, got, want):
             e = abs(got - want)
             r = R.rel(got, want)
-            stats[name] = max(stats.get(name, 0.0), r if e > slack else 0.0)
+            stats[name] = max(stats.get(name, 0.0), r if e > slack + floor else 0.0)
             stats[name + "_n"] = stats.get(name + "_n", 0) + 1
-            if not (e <= TOL * max(abs(got), abs(want)) + slack):
+            if TOL * max(abs(got), abs(want)) < floor:
+                stats["undecidable_n"] = stats.get("undecidable_n", 0) + 1
+            if not (e <= max(TOL * max(abs(got), abs(want)), floor) + slack):
                 problems.append(("charge-law %s model=%s" % (name, case["model"] if kind == "dl" else kind),
                                  "%s: surface %s: charge density from species %.17g C/m2, from the charge-potential relation %.17g C/m2 (rel %.3g; psi=%.17g V, mu=%.17g, eps_r=%.17g, T=%.17g K)" % (
                                      tag, s, got, want, r, edl["psi"], o["mu"], o["eps"], tk)))
@@ -454,17 +460,19 @@ def judge(case, lay, o, tag, problems, diags, stats):
                 qabs += abs(z * m)
             stot = sum(ch)
             e = abs(q + stot)
-            gross = qabs + chabs
-            r = e / max(gross, 1e-300)
-            sl = ULP * gross
-            stats["dl-balance"] = max(stats.get("dl-balance", 0.0), r if e > sl else 0.0)
+            net = max(abs(q), abs(stot))
+            r = e / max(net, 1e-300)
+            sl = ULP * (qabs + chabs)
+            stats["dl-balance"] = max(stats.get("dl-balance", 0.0), r if e > sl + floor else 0.0)
             stats["dl-balance_n"] = stats.get("dl-balance_n", 0) + 1
             if len(dl["species"]) < 3:
                 raise RuntimeError("EDL_SPECIES returned %d species for an explicit diffuse layer" % len(dl["species"]))
-            if not (e <= TOL * gross + sl):
+            if TOL * net < floor:
+                stats["undecidable_n"] = stats.get("undecidable_n", 0) + 1
+            if not (e <= max(TOL * net, floor) + sl):
                 problems.append(("diffuse-layer-balance model=%s" % case["model"],
-                                 "%s: surface %s: charge of surface species %.17g eq, net charge of the ions in the diffuse layer %.17g eq, sum %.3g eq = %.3g of the gross charge %.3g eq" % (
-                                     tag, s, stot, q, q + stot, r, gross)))
+                                 "%s: surface %s: charge of surface species %.17g eq, net charge of the ions in the diffuse layer %.17g eq, sum %.3g eq (rel %.3g)" % (
+                                     tag, s, stot, q, q + stot, r)))
         elif kind == "noedl":
             pass
 
